@@ -119,8 +119,9 @@ type built struct {
 }
 
 type opEntry struct {
-	op   specgen.ParamOp
-	resp *respAtom
+	op    specgen.ParamOp
+	resp  *respAtom
+	media bool // document whose spec-level produces differs from its consumes
 }
 
 func specFor(ops []opEntry) J {
@@ -145,6 +146,18 @@ func specFor(ops []opEntry) J {
 	}
 	if len(defs) > 0 {
 		d["definitions"] = defs
+	}
+	if len(ops) > 0 && ops[0].media {
+		// consumes and produces differ, and the first produced type is not consumed
+		d["consumes"] = []any{"application/json"}
+		d["produces"] = []any{"application/vnd.vf.out+json", "application/json"}
+		// JSON bodies rely on the spec-level consumes (no operation-level list)
+		for _, o := range ops {
+			opj := jx.GetJ(d, "paths", o.op.Path, strings.ToLower(o.op.Method))
+			if cs, ok := opj["consumes"].([]any); ok && len(cs) == 1 && cs[0] == "application/json" {
+				delete(opj, "consumes")
+			}
+		}
 	}
 	return d
 }
@@ -236,6 +249,31 @@ func main() {
 		ops = append(ops, opEntry{op: op, resp: &ras[i]})
 	}
 	bad := run(c, swagger, ops, 40, "", rng)
+	// the same body / formData atoms in a document whose produces list differs from consumes
+	{
+		var mops []opEntry
+		for _, o := range ops {
+			if o.resp != nil || len(o.op.Atoms) == 0 {
+				continue
+			}
+			a := o.op.Atoms[0]
+			if a.Body || (a.In() == "formData" && strings.Contains(a.ID, ".required") && !strings.Contains(a.ID, "array")) {
+				m := o
+				m.media = true
+				m.op.OpID = "m" + o.op.OpID
+				m.op.Path = "/m" + strings.TrimPrefix(o.op.Path, "/")
+				mops = append(mops, m)
+			}
+		}
+		// JSON bodies first (they rely on the spec-level consumes), then the formData atoms
+		sort.SliceStable(mops, func(i, j int) bool { return mops[i].op.Atoms[0].Body && !mops[j].op.Atoms[0].Body })
+		if !c.Thorough() && len(mops) > 30 {
+			mops = mops[:30]
+		}
+		for id := range run(c, swagger, mops, 40, "", rng) {
+			bad[id] = true
+		}
+	}
 	// pass B: operations with several parameters and a response atom
 	var pool []specgen.ParamAtom
 	for _, a := range atoms {
@@ -286,6 +324,7 @@ func main() {
 }
 
 type pend struct {
+	loose  map[string]bool
 	o      opEntry
 	atom   *specgen.ParamAtom
 	label  string
@@ -375,7 +414,7 @@ func run(c *core.Ctx, swagger string, ops []opEntry, perServer int, pass string,
 							if bv, ok := bd.Values[a.Name()]; ok && !a.Body {
 								vals[a.Name()] = bv // the typed value (e.g. 12 for the text "12")
 							}
-							add(pend{o: o, atom: &o.op.Atoms[ai], label: v.Label, values: vals})
+							add(pend{o: o, atom: &o.op.Atoms[ai], label: v.Label, values: vals, loose: bd.Loose})
 						}
 					}
 					// optional parameters left out
@@ -602,6 +641,15 @@ func compareParams(b *built, p pend, a servrig.Ans) string {
 		}
 		if ea, ok := exp.([]any); ok && len(ea) == 0 && (got == nil) {
 			continue
+		}
+		if p.loose[at.Name()] {
+			// an allowed empty value may arrive as empty, as nothing, or (being absent) as the default
+			if emptyish(got) {
+				continue
+			}
+			if d, has := at.Param["default"]; has && sameValue(jx.Normalize(d), got, at.Param) == "" {
+				continue
+			}
 		}
 		if why := sameValue(exp, got, at.Param); why != "" {
 			return fmt.Sprintf("parameter %q: %s", at.Name(), why)
